@@ -56,8 +56,8 @@ TaskOf(ty, k) ==
     [] k = "for_each" -> IF ty \in {"Fil", "MapFil", "FilterMap", "FilterMapFil"} THEN "Reduce" ELSE "Collect"
     [] OTHER -> "Collect"
 
-SrcClass(s) == IF s \in {"vec", "slice", "range"} THEN "indexed" ELSE "ticketed"
-LenKnown(s) == s \in {"vec", "slice", "range", "iter", "deque", "list", "btree"}
+SrcClass(s) == IF s \in {"vec", "vecadv", "slice", "range"} THEN "indexed" ELSE "ticketed"
+LenKnown(s) == s \in {"vec", "slice", "range", "iter", "deque", "list", "btree", "dequeref", "btreeref"}
 
 Resolve(p) ==
   LET pr == FinalParams(p)
